@@ -13,6 +13,22 @@ impl ObjectRef {
   #[verifier::external_body] pub fn to_native(&self) -> (r: NativeRef) requires o_kind(*self) == ObjectKind::Native ensures r == o_native(*self) { NativeRef { p: 0 } }
   #[verifier::external_body] pub fn to_fun(&self) -> (r: FunRef) requires o_kind(*self) == ObjectKind::Fun ensures r == o_fun(*self) { FunRef { p: 0 } }
 }
+/// ObjRef<LyBox>: `ly_box.value` is the boxed value at the time of the read
+pub struct BoxRef { pub value: Value }
+pub uninterp spec fn o_box_value(o: ObjectRef) -> Value;
+impl ObjectRef {
+  #[verifier::external_body] pub fn to_box(&self) -> (r: BoxRef) requires o_kind(*self) == ObjectKind::LyBox ensures r.value == o_box_value(*self) { BoxRef { value: Value { bits: 0 } } }
+}
+/// GcHooks::new(self): a handle used only to allocate
+pub struct GcHooksStub { }
+pub uninterp spec fn inherits_log(vm: Vm) -> Seq<(ClassRef, ClassRef)>;
+impl ClassRef {
+  /// real: copies the super class's method and field tables into the (fresh) sub class and records the parent.
+  /// A-shape: the compiler emits Inherit directly after Class, so the sub class has no methods or fields yet
+  /// (the real body debug_asserts exactly that).
+  #[verifier::external_body] pub fn inherit(&mut self, hooks: &GcHooksStub, super_class: ClassRef) ensures *final(self) == *old(self) { }
+  #[verifier::external_body] pub fn meta_from_super(&mut self, hooks: &GcHooksStub) ensures *final(self) == *old(self) { }
+}
 impl ClosureRef {
   #[verifier::external_body] pub fn fun(&self) -> (r: FunRef) ensures r == closure_fun(*self) { FunRef { p: 0 } }
   #[verifier::external_body] pub fn captures(&self) -> (r: CapturesRef) ensures r == closure_captures(*self) { CapturesRef { p: 0 } }
@@ -59,6 +75,7 @@ macro_rules! to_obj_kind2 {
   ($o:expr, Native) => { $o.to_native() };
   ($o:expr, Class) => { $o.to_class() };
   ($o:expr, Fun) => { $o.to_fun() };
+  ($o:expr, LyBox) => { $o.to_box() };
 }
 macro_rules! match_obj {
   (($scrutinee:expr) {
